@@ -106,6 +106,18 @@ func (fe *FnEnc) call(ins ssa.Instruction, c *ssa.CallCommon, rt types.Type) Val
 			}
 		}
 	}
+	if fe.top.ct != nil && fe.top.ct.Opts["dyncalls"] == "args-only" {
+		// assumption (recorded): function values supplied by the caller only touch what they are handed
+		fe.s.note("dynamic calls in %s are assumed to write only memory reachable from their arguments", fe.top.fnName())
+		fe.top.havocked["assumed: dynamic calls write only their arguments in "+fe.top.fnName()] = true
+		for _, a := range args {
+			fe.havocReachable(a)
+		}
+		if rt == nil {
+			return Val{}
+		}
+		return fe.freshVal("dc", rt)
+	}
 	return fe.unknownCall(fmt.Sprintf("dynamic call of %s", c.Value.Name()), args, rt)
 }
 
@@ -294,6 +306,16 @@ func (fe *FnEnc) havocReachable(a Val) {
 		nv := s.fresh("hm", s.sortOf(a.Map.T))
 		s.assumeRange(a.Map.T, nv)
 		fe.recordMod(s.store(fe.mem, a.Map.Origin, nv))
+	}
+	if pt, ok := types.Unalias(a.T).Underlying().(*types.Pointer); ok && a.T != nil {
+		if _, isStruct := structOf(pt.Elem()); isStruct {
+			if ad := fe.ptrAddr(a); ad.Root == rootHeap && len(ad.Steps) == 0 {
+				nv := s.fresh("hs", s.sortOf(pt.Elem()))
+				s.assumeRange(pt.Elem(), nv)
+				fe.recordMod(s.store(fe.mem, ad, nv))
+				return
+			}
+		}
 	}
 	if a.Addr != nil && a.Addr.Root != rootHeap {
 		t := a.Addr.elemType()
